@@ -277,6 +277,14 @@ def run_check(spec, pid, tier, seed, replay_sig=None):
             log("inconclusive: hooks-on CLI does not build")
             return 2
     rundir = os.path.join(TARGET, "run", f"{pid}-{tier}-{seed}-{os.getpid()}")
+    # scratch hygiene: run directories of failed / interrupted earlier runs are kept for inspection, but not for ever
+    try:
+        for d in os.listdir(os.path.join(TARGET, "run")):
+            full = os.path.join(TARGET, "run", d)
+            if time.time() - os.path.getmtime(full) > 3 * 3600:
+                shutil.rmtree(full, ignore_errors=True)
+    except OSError:
+        pass
     shutil.rmtree(rundir, ignore_errors=True)
     os.makedirs(rundir, exist_ok=True)
     res = Results()
@@ -290,6 +298,13 @@ def run_check(spec, pid, tier, seed, replay_sig=None):
             shard_results = [f.result() for f in futs]
         parse_outputs(pid, shard_results, res, keep_recs=bool(spec.get("offline")))
     distinct = count_distinct([h for sr in shard_results for h in (sr["hashes"] if isinstance(sr["hashes"], list) else [sr["hashes"]])])
+    # the hash files are only needed for the distinct count (they are by far the largest scratch files)
+    for sr in shard_results:
+        for h in (sr["hashes"] if isinstance(sr["hashes"], list) else [sr["hashes"]]):
+            try:
+                os.remove(h)
+            except OSError:
+                pass
     # process deaths observed through the crash journal (C01)
     for sr in shard_results:
         for d in sr.get("deaths", []):
